@@ -163,7 +163,7 @@ def run(ctx):
                 "worker thread, one foreign thread, two alternating threads and recycled slots from the shared free list -- every slot is "
                 "handed out exactly once, each node is written to its own slot, and OutOfMemory comes exactly when nothing is left.")
     nsm = eslotmodel.run(ctx, F)
-    ctx.floor("E-SLOT.model", "interpreted allocation sequences", nsm, 9)
+    ctx.floor("E-SLOT.model", "interpreted allocation sequences", nsm, 11)
     nsb = eslot.run(ctx, F)
     ctx.floor("E-SLOT.bound", "get_unchecked calls with a local length comparison", nsb, 2)
     ecount.run(ctx, F, ('oxidd_manager_index', 'oxidd_manager_pointer', 'arcslab'))
